@@ -97,12 +97,13 @@ Code(s) == (IF s.late THEN 3 ELSE 0) + (CASE s.pon = "parent" -> 0 [] s.pon = "l
 Init == sc \in {s \in Space : Code(s) % Parts = Part}
 Next == UNCHANGED sc
 
-\* the declaration the harness reaches after the C12.h history: new parameter value, one more constraint and one more objective term on stage 1
+\* the declaration the harness reaches after the C12.h history: new parameter value, one more constraint and two more objective terms (Mayer, integral) on stage 1
 AfterReset(md) ==
   IF ~md.reset THEN md
   ELSE [md EXCEPT !.stages[1].params[1].val = Tup([c \in 1..Len(@) |-> Add(@[c], R(2))]),
                   !.stages[1].cons = Append(@, K2),
-                  !.stages[1].obj = Append(@, O2),
+                  !.stages[1].quads = Append(@, Q2),
+                  !.stages[1].obj = Append(Append(@, O2), IntQ(Len(md.stages[1].quads) + 1)),      \* a Mayer term and an integral term
                   !.stages[1].rhs[1] = Plus(@, CI(1))]          \* and the first state's derivative is declared again
 
 Emit == LET md == MkMulti(sc)
